@@ -919,6 +919,11 @@ spif_dlinked_list_map_remove(spif_dlinked_list_t self, spif_obj_t item)
             return (spif_obj_t) NULL;
         }
     }
+    if (tmp->next) {
+        tmp->next->prev = tmp->prev;
+    } else {
+        self->tail = tmp->prev;
+    }
     item = tmp->data;
     tmp->data = (spif_obj_t) NULL;
     spif_dlinked_list_item_del(tmp);
